@@ -5,7 +5,7 @@ from props._fa_common import TRUSTED, ASSUMPTIONS, TECHNIQUE
 
 PROP = "C02"
 LEVEL = "proof"
-THEOREMS = {"Properties.C02": ["C02_equiv_sound", "C02_equiv_complete", "C02_reduced_certificate"]}
+THEOREMS = {"Properties.C02": ["C02_equiv_sound", "C02_equiv_complete", "C02_reduced_certificate", "C02_equiv_total", "C02_minimal_unique", "C02_trim_certificate"]}
 LEVEL_TEXT = ("Coq theorems (no axioms): the model of is_equivalent_to (lock-step subset-pair exploration) returns true exactly when the two languages "
               "are equal (sound and complete whenever it terminates within fuel). pyformlang's minimise-and-walk algorithm is modelled, not mirrored: "
               "the answer is uniquely determined, and is compared on every case. minimize(): each returned DFA is certified reduced (all states reachable, "
